@@ -260,18 +260,24 @@ class Run:
         ents.sort()
         ns, p = ents[op.get('i', 0) % len(ents)]
         key = {'iso': 'iso_path', 'jol': 'joliet_path', 'udf': 'udf_path'}[ns]
+        if ns == 'iso' and m.rr and m.t['iso'][p].get('rr') and op.get('i', 0) % 2 == 1 and q in (0, 1, 3) and not m.relocated_dirs():
+            # address the entry by its Rock Ridge path in half of the ISO9660 draws (lookups by rr_path have a cache of their own)
+            key, p = 'rr_path', m.rr_path(p)
         try:
             if q == 0:
                 self.iso.get_record(**{key: p})
             elif q == 1:
-                d = p if m.t[ns][p]['type'] == 'dir' else parent_of(p)
+                if key == 'rr_path':
+                    d = p if m.t['iso'][ents[op.get('i', 0) % len(ents)][1]]['type'] == 'dir' else (p.rsplit('/', 1)[0] or '/')
+                else:
+                    d = p if m.t[ns][p]['type'] == 'dir' else parent_of(p)
                 list(self.iso.list_children(**{key: d}))
             elif q == 2:
                 for _ in self.iso.walk(**{key: '/'}):
                     pass
             elif q == 3:
                 rec = self.iso.get_record(**{key: p})
-                self.iso.full_path_from_dirrecord(rec)
+                self.iso.full_path_from_dirrecord(rec, rockridge=(key == 'rr_path'))
             elif q == 4 and m.rr and ns == 'iso' and m.t['iso'][p].get('rr'):
                 self.iso.file_mode(rr_path=m.rr_path(p))
             else:
